@@ -44,7 +44,11 @@ _hook_installed = [False]
 
 
 def _names_in(code, depth=0):
+    """taint markers that were PARSED as identifiers: names of the code object, or (what an expression parser such as sympy's
+    makes of an unknown name) a string constant that is exactly the bare identifier. The transpiled program itself only ever
+    contains the whole user string "TAINT_n()..." as a constant, never the bare identifier."""
     out = [n for n in code.co_names if n.startswith("TAINT_")]
+    out += [c for c in code.co_consts if isinstance(c, str) and len(c) == 7 and c.startswith("TAINT_") and c[6].isdigit()]
     if depth < 6:
         for c in code.co_consts:
             if hasattr(c, "co_names"):
